@@ -164,6 +164,24 @@ def run_case(case, ctx):
             if not (isinstance(r, Err) and r.type == "NullPointerDereference"):
                 raise Violation("null-dereference", f"{what}: dereferencing a null pointer gave {r!r} instead of NullPointerDereference: {desc(what)}")
             ctx.count("deref:null")
+            # arithmetic on a null pointer that was READ from data: the result is a pointer of the same type on the same
+            # stream (a base-relative table stores offset 0 for its first entry)
+            if kind not in ("void", "ptr"):
+                for n_ in sorted({1, 2, len(image) // 2, max(1, len(image) - 9)}):
+                    q = lib(lambda: p + n_)
+                    if isinstance(q, Err) or type(q) is not type(p) or int(q) != n_:
+                        raise Violation("pointer-arithmetic", f"{what}: null + {n_} = {q!r} (type {type(q).__name__}), expected a {type(p).__name__} holding {n_}: {desc(what)}")
+                    try:
+                        if kind == "char":
+                            expq = image[n_ : image.index(b"\x00", n_)]
+                        else:
+                            expq = refsem.canon(sem.decode(node, image, n_)[0])
+                    except (refsem.Short, refsem.NonCanonical, ValueError):
+                        continue
+                    rq = lib(q.dereference)
+                    if isinstance(rq, Err) or libside.cplain(rq) != expq:
+                        raise Violation("pointer-arithmetic", f"{what}: (null pointer read from the data + {n_}).dereference() = {rq!r}, the bytes at {n_} decode to {expq!r}: {desc(what)}")
+                    ctx.count("deref:null-plus-offset")
         elif kind == "void":
             if isinstance(r, Err):
                 raise Violation("dereference-raised", f"{what}: {r}: {desc(what)}", r.where)
